@@ -1,6 +1,9 @@
 #!/bin/sh
-# Offline setup: nothing to fetch. Warm the Verus cache and (later) the Kani build.
-set -e
-cd /verif
+# Offline setup: nothing is fetched. Warms the Kani build of koto's crates so that the quick
+# checks only rebuild what changed.
+cd /verif || exit 1
 mkdir -p .build evidence replays
+cp /repo/Cargo.lock kani/Cargo.lock 2>/dev/null
+( cd kani && CARGO_NET_OFFLINE=true CARGO_TARGET_DIR=/verif/.build/kani-target timeout 1500 cargo kani --only-codegen >/verif/.build/setup-kani.log 2>&1 )
+( cd kani && CARGO_NET_OFFLINE=true CARGO_TARGET_DIR=/verif/.build/replay-target timeout 900 cargo build --offline --bin replay >/verif/.build/setup-replay.log 2>&1 )
 exit 0
